@@ -79,6 +79,7 @@ type Frame struct {
 	iterCells map[*ssa.Range]*Cell
 	unlockIdx int
 	phiOv     map[*ssa.Phi]Value // loop-header phis havoced by loopEnter (replaced, never mutated)
+	heapLocals map[string]Value  // locals that live on the heap (address taken and escaping): name -> pointer
 }
 
 type lockHeld struct {
